@@ -115,6 +115,8 @@ def card_work(payload):
         res.case(nontrivial_key=(msname, tuple(map(tuple, chains_spec))), n=len(ref), outcome=len(chains))
         scale = np.maximum(np.abs(ref), 1e-12 * np.abs(ref).max())
         dev = np.abs(dens - ref) / scale
+        if np.all(np.isfinite(dev)) and dev.max() <= 1e-9:
+            res.stat_max("rel_dev_on_passing_cases", dev.max())
         if not np.all(np.isfinite(dens)) or dev.max() > 1e-9:
             k = int(np.nanargmax(dev)) if np.all(np.isfinite(dev)) else 0
             ratio = dens / np.where(ref == 0, 1, ref)
